@@ -272,6 +272,73 @@ theorem asyncgen_anext_witness :
     ∀ w ∈ Gen.catchRows, w.shape = "asyncgen.__anext__".toList → w.chain = ["__exit__".toList, "asend".toList] := by
   decide
 
+/-! ### one Catcher object shared by several actors: the depth arithmetic is per call (class of seed C17-l) -/
+/-- GENERATED obligation: `Catcher.__exit__` takes the extra-frame correction of the `async with` protocol from a
+parameter of the call, and no method assigns an attribute of the (shared) Catcher object after construction -/
+theorem exit_frames_are_per_call : Gen.exitFramesSrc = .param ∧ Gen.catcherLaterWrites = [] := by decide
+
+theorem sharedStep_param_inv (flag : Bool) (d : Int) (proto : Nat → Proto) (st : Int × List (Nat × Int)) (x : SStep)
+    (hinv : ∀ p ∈ st.2, p.2 = Gen.catchDepth flag (protoFrames (proto p.1)) d) :
+    ∀ p ∈ (sharedStep .param flag d proto st x).2, p.2 = Gen.catchDepth flag (protoFrames (proto p.1)) d := by
+  obtain ⟨extra, out⟩ := st
+  cases x with
+  | enter a => simpa [sharedStep] using hinv
+  | leave a => simpa [sharedStep] using hinv
+  | exit a =>
+    intro p hp
+    simp only [sharedStep, List.mem_append, List.mem_singleton] at hp
+    rcases hp with hp | hp
+    · exact hinv p hp
+    · subst hp; rfl
+
+theorem foldl_param_inv (flag : Bool) (d : Int) (proto : Nat → Proto) (sched : List SStep) (st : Int × List (Nat × Int))
+    (hinv : ∀ p ∈ st.2, p.2 = Gen.catchDepth flag (protoFrames (proto p.1)) d) :
+    ∀ p ∈ (sched.foldl (sharedStep .param flag d proto) st).2, p.2 = Gen.catchDepth flag (protoFrames (proto p.1)) d := by
+  induction sched generalizing st with
+  | nil => simpa using hinv
+  | cons x xs ih => exact ih _ (sharedStep_param_inv flag d proto st x hinv)
+
+/-- ONE Catcher object used by any number of actors (threads, tasks, re-entrant uses) through `with` and `async with`
+in ANY interleaving of their steps: every exit computes the depth its own protocol calls for – no exit sees the
+correction of another one -/
+theorem shared_catcher_exits_independent (flag : Bool) (d : Int) (proto : Nat → Proto) (sched : List SStep) :
+    ∀ p ∈ (runShared Gen.exitFramesSrc flag d proto sched).2,
+      p.2 = Gen.catchDepth flag (protoFrames (proto p.1)) d := by
+  rw [exit_frames_are_per_call.1]
+  exact foldl_param_inv flag d proto sched _ (by simp)
+
+/-- the shape that keeps the correction on the object is REFUTED: while actor 0 is inside `async with`, actor 1 leaving a
+plain `with` on the same object computes depth + 1 (its record would name the caller of the block's function) -/
+theorem shared_state_shape_refuted :
+    let proto : Nat → Proto := fun a => if a = 0 then .async else .sync
+    (1, (1 : Int)) ∈ (runShared .selfAttr false 0 proto [.enter 0, .exit 1, .exit 0, .leave 0]).2 ∧
+    Gen.catchDepth false (protoFrames (proto 1)) 0 = 0 := by
+  decide
+
+/-- … so that, whatever the interleaving, the record of each actor identifies ITS OWN frame: the frame `d` above the
+frame containing that actor's block -/
+theorem shared_catcher_identifies_each_actors_frame (lib : Str → Frame) (d : Nat) (proto : Nat → Proto)
+    (sched : List SStep) (us : Nat → List Frame) (a3 a4 a5 a6 a7 a8 : Int) (ex : Exec)
+    (p : Nat × Int) (hp : p ∈ (runShared Gen.exitFramesSrc false (d : Int) proto sched).2)
+    (f : Frame) (hf : (us p.1)[d]? = some f) :
+    let chain := match proto p.1 with
+      | .sync => ["__exit__".toList]
+      | .async => ["__exit__".toList, "__aexit__".toList]
+    logCore (stackAtLog lib chain (us p.1)) [1, p.2, 1, a3, a4, a5, a6, a7, a8] ex = .ok (recordOf f ex) := by
+  have hdep := shared_catcher_exits_independent false (d : Int) proto sched p hp
+  intro chain
+  have hasync : asyncRowFrames = 1 := by decide
+  have hdef : Gen.exitFramesDefault = 0 := by decide
+  unfold stackAtLog
+  rw [← List.cons_append]
+  apply logCore_selects (depth := p.2) (d := d) (hf := hf)
+  · exact ⟨rfl, rfl⟩
+  · rw [(frame_constants p.2).1, hdep, catchDepth_eq]
+    cases hpr : proto p.1 <;> simp [chain, hpr, protoFrames, hasync, hdef] <;> omega
+
+example : (runShared .param false 0 (fun a => if a = 0 then .async else .sync) [.enter 0, .exit 1, .exit 0, .leave 0]).2
+    = [(1, 0), (0, 1)] := by decide
+
 /-! ### `get_frame_fallback` agrees with `sys._getframe` (finding F22, fixed by 3b5d8d8) -/
 
 theorem fallbackWalk_eq_drop (n : Nat) (stack : List Frame) :
@@ -473,6 +540,27 @@ theorem context_fresh_every_call (imported : Exec) (cache : List (Int × Exec)) 
     cases cache.lookup now.threadId <;>
       simp [effectiveExec, lookupCtx, Gen.threadLookup, Gen.processLookup, ih]
 
+/-- GENERATED obligation: `aware_now()` takes one reading of the clock and derives the tzinfo from that very reading
+through the cache-free `_get_tzinfo` -/
+theorem time_zone_looked_up_per_call : Gen.tzLookup = .perCall := by decide
+
+/-- for EVERY history of calls – whatever the local UTC offset was at import, at the first call and at each later call
+(DST switches, `time.tzset()` in between) – the `time` of each record carries the offset in force at ITS call -/
+theorem time_offset_fresh_every_call (imported : Int) (first : Option Int) (history : List Int) :
+    runOffsets Gen.tzLookup imported first history = history.map some := by
+  rw [time_zone_looked_up_per_call]
+  induction history generalizing first with
+  | nil => cases first <;> rfl
+  | cons now rest ih =>
+    cases first <;> simp [runOffsets, lookupVal, ih]
+
+/-- a tzinfo kept from the first call (or from import) is refuted by a history with one change of the offset -/
+theorem cached_offset_refuted :
+    runOffsets .cachedPerThread 0 none [3600, 7200] ≠ [some 3600, some 7200] ∧
+    runOffsets .atImport 0 none [3600] ≠ [some 3600] := by decide
+
+example : runOffsets .perCall 0 none [3600, 7200, 3600] = [some 3600, some 7200, some 3600] := by decide
+
 /-- `elapsed` never decreases over any sequence of calls whose clock readings do not decrease
 (the hypothesis is the wall clock's, not the code's) -/
 theorem elapsed_monotone_if_clock_monotone (start : Int) (readings : List Int)
@@ -627,6 +715,38 @@ theorem huge_depth_witness (lib : Str → Frame) (us : List Frame) (ex : Exec) :
 
 example : getFrameC [] 2147483648 = .error .other ∧ getFrame [] 2147483648 = .error .valueError := ⟨rfl, rfl⟩
 example : cIntMax < Gen.frameIndex 2147483646 ∧ ¬ cIntMax < Gen.frameIndex 2147483645 := by decide
+
+/-- GENERATED obligation: in a handler format `{thread}` and `{process}` render the IDENTIFIER of the calling thread /
+process and `{file}` the file name (the `__format__` methods of `_recattrs.py`) -/
+theorem record_objects_format_as_identifier :
+    Gen.recFormat = [("file".toList, "name".toList), ("thread".toList, "id".toList), ("process".toList, "id".toList)] := by
+  decide
+
+/-- every catch() shape with the real `sys._getframe`: a frame inside a stack of realistic size is identified -/
+theorem catch_all_shapes_real_getframe (lib : Str → Frame) (w : CatchRow) (hw : w ∈ Gen.catchRows)
+    (opts : List Int) (d : Nat) (hopt : OptionsWithDepth opts d) (hreal : (d : Int) + 4 ≤ cIntMax)
+    (us : List Frame) (f : Frame) (hf : us[d]? = some f) (ex : Exec) :
+    logViaCatchC lib w opts us ex = .ok (recordOf f ex) := by
+  have hch : w.chain.length ≤ 3 := (show ∀ w ∈ Gen.catchRows, w.chain.length ≤ 3 by decide) w hw
+  have hold := catch_all_shapes lib w hw opts d hopt us f hf ex
+  obtain ⟨hlen, hd⟩ := hopt
+  obtain ⟨hbal, hfr⟩ := catch_rows_balanced w hw
+  match opts, hlen with
+  | [a0, a1, a2, a3, a4, a5, a6, a7, a8], _ =>
+    simp at hd
+    subst hd
+    unfold logViaCatchC
+    unfold logViaCatch at hold
+    simp only [catchOptions_ok] at hold ⊢
+    have hopt' : OptionsWithDepth [1, Gen.catchDepth w.fromDecorator w.frames (d : Int), 1, a3, a4, a5, a6, a7, a8]
+        (Gen.catchDepth w.fromDecorator w.frames (d : Int)) := ⟨rfl, rfl⟩
+    have hfi := (frame_constants (Gen.catchDepth w.fromDecorator w.frames (d : Int))).1
+    have hcd := catchDepth_eq w.fromDecorator w.frames (d : Int)
+    have hb : Gen.catchDepth w.fromDecorator w.frames (d : Int) = (d : Int) + (w.chain.length : Int) - 1 := by
+      rw [hcd]; cases hfd : w.fromDecorator <;> simp [hfd] at hbal ⊢ <;> omega
+    rw [logCoreC_eq_logCore_in_range _ _ _ ex hopt' (by rw [hfi, hb]; unfold cIntMin; omega)
+      (by rw [hfi, hb]; unfold cIntMax at hreal ⊢; omega)]
+    exact hold
 
 /-! ### what `depth` means: dropping frames -/
 
